@@ -259,6 +259,60 @@ def option_extremes(ctx):
             ctx.violation(f"{status}:config:{detail}", f"string config {mapping}: {detail}", {"mapping": mapping})
 
 
+CONFIG_FILES = {
+    "good": "string_configs:\n  strname_to_size:\n    A$: 100\n",
+    "good-array": "string_configs:\n  strname_to_size:\n    \"A$()\": 50\n",
+    "empty": "",
+    "comment-only": "# nothing here\n",
+    "empty-mapping": "{}\n",
+    "top-level-list": "- string_configs:\n    strname_to_size:\n      A$: 100\n",
+    "top-level-scalar": "A$ 100\n",
+    "top-level-number": "42\n",
+    "null": "null\n",
+    "string-configs-list": "string_configs:\n  - A$\n",
+    "string-configs-scalar": "string_configs: 5\n",
+    "map-scalar": "string_configs:\n  strname_to_size: 7\n",
+    "size-string": "string_configs:\n  strname_to_size:\n    A$: big\n",
+    "size-zero": "string_configs:\n  strname_to_size:\n    A$: 0\n",
+    "bad-key": "string_configs:\n  strname_to_size:\n    a$: 10\n",
+    "unknown-field": "strings:\n  A$: 10\n",
+    "non-string-key": "string_configs:\n  strname_to_size:\n    1: 10\n",
+    "two-documents": "string_configs: {}\n---\nstring_configs: {}\n",
+}
+
+
+def config_files(ctx):
+    """-c <file>: every YAML shape either loads or fails with the documented configuration validation error
+    (pydantic ValidationError) or a YAML syntax error of the YAML library; never another exception"""
+    import io
+
+    from coco.b09 import compiler
+
+    ctx.encode("configs.CompilerConfigs.load (executed on files of every YAML shape)", repo_source("coco/b09/configs.py"))
+    tmp = tempfile.mkdtemp(prefix="c15cfg")
+    try:
+        for name, text in CONFIG_FILES.items():
+            path = os.path.join(tmp, name + ".yaml")
+            with open(path, "w") as f:
+                f.write(text)
+            ctx.stats["programs"] += 1
+            try:
+                compiler.convert_file(io.StringIO('10 A$ = "X" : PRINT A$\n'), io.StringIO(), config_file=path, procname="prog")
+                status, detail = "ok", ""
+            except Exception as e:  # noqa: BLE001
+                mod = type(e).__module__ or ""
+                if exc_kind(e) == "refused" or mod.startswith("ruamel") or mod.startswith("yaml"):
+                    status, detail = "refused", type(e).__name__
+                else:
+                    status, detail = "crash", "%s@%s" % crash_site(e)
+            if status == "crash":
+                ctx.violation(f"crash:config-file:{name}:{detail}", f"config file {text!r}: {detail}", {"config": text})
+    finally:
+        import shutil
+
+        shutil.rmtree(tmp, ignore_errors=True)
+
+
 def cli_names(ctx):
     """decb_to_b09.start end to end for input file names over the characters PROCNAME_REGEX admits (and a few it does not)"""
     from coco import decb_to_b09
@@ -368,6 +422,7 @@ def run(tier):
     regex_lemmas(ctx, tier)
     monitor(ctx, tier)
     option_extremes(ctx)
+    config_files(ctx)
     cli_names(ctx)
     ctx.stats["obligations"] += ctx.stats["programs"]
     ctx.add_solver_stats(smt.STATS.export())
